@@ -5,7 +5,9 @@ P="$1"; shift
 cd /repo || exit 2
 if ! git apply --check "$P" 2>/dev/null; then echo "PATCH DOES NOT APPLY: $P"; exit 2; fi
 git apply "$P"
-trap 'git -C /repo checkout -- . ; git -C /repo status --short | grep -v "^ M scripts/quick_start\|libwasmer" | head -3' EXIT
+# evidence files must describe runs on the unchanged tree: keep them aside and put them back
+EVB=$(mktemp -d /verif/.evidence_keep.XXXX); cp -a /verif/evidence/. "$EVB"/
+trap 'cp -a "$EVB"/. /verif/evidence/; rm -rf "$EVB"; git -C /repo checkout -- . ; git -C /repo status --short | grep -v "^ M scripts/quick_start\|libwasmer" | head -3' EXIT
 for id in "$@"; do
   echo "== $id =="
   (cd /verif && timeout 1500 scripts/check "$id" --tier quick 2>&1 | grep "^VIOLATION\|^INCONCL\|^ENGINE\|^VACUOUS\|symgo:" | cut -c1-220 | head -8)
